@@ -252,6 +252,10 @@ def build_sheet(case):
     # a global tilt so that the sheets are not axis aligned
     Q = geo.random_rotation_matrix(random.Random(case["npseed"] + 1))
     off = rs.uniform(-50, 200, 3)
+    if case.get("far"):
+        # a sheet posed far from the origin (ordinary tomogram coordinates, a large montage, a 1e6-voxel translation):
+        # double precision keeps thickness and pairing there, single precision inside the call does not
+        off = np.array([1.0, 1.2256, 0.3585]) * case["far"]
     pts = pts @ Q.T + off
     nrm = nrm @ Q.T
     if case.get("coincide"):
@@ -260,6 +264,8 @@ def build_sheet(case):
         pts[i2[0]] = pts[i1[0]]
     Q2 = geo.random_rotation_matrix(random.Random(case["npseed"] + 2))
     off2 = rs.uniform(-300, 300, 3)
+    if case.get("far"):
+        off2 = np.array([-0.61, 0.27, 1.0]) * case["far"] * 1.7      # the rigid motion moves it far away again
     if case.get("form") == "f32":
         # single-precision inputs: the case IS the float32 values (relations are computed from exactly these)
         pts = pts.astype(np.float32).astype(np.float64)
@@ -568,6 +574,10 @@ def run(ctx):
                 cases[4].update(n=560, n1_exact=257, lam=2.0, maxf=1.5, unlabelled=3, dir="1to2")
                 cases[5].update(n=40, n1_exact=1, lam=3.0, maxf=1.5, unlabelled=0, wrong=0.0)
                 cases[6].update(coincide=True)
+                # in EVERY run, whatever the seed: sheets far from the origin, judged by thickness and rigid motion
+                for j, far in ((8, 6.0e3), (9, 3.0e5), (10, 1.0e6), (11, 6.4e3)):
+                    cases[j].update(far=far, form="plain", lam=3.0, maxf=1.5, wrong=0.0, n=40 + 10 * j,
+                                    h=[4.0, 5.5, 7.25, 1.04][j - 8])
                 cases[7].update(coincide=True, n=30)
             # binding demonstration (self-test only): VERIF_C20_CORRUPT=field|swap_call corrupts one recorded field /
             # swaps the direction flag of the base call in the first batch - the check must then report violations
